@@ -73,8 +73,11 @@ fn module_text(i: usize, deps: &[usize], file_backed: &[bool], dir: &str) -> Str
         }
     }
     s.push_str(&format!(
-        "(provide m{i}-f m{i}-v m{i}-w {tag} (contract/out m{i}-c (->/c int? int?)))\n(instantiated! \"m{i}\")\n(define secret {sec})\n(define (helper x) (+ x secret))\n(define m{i}-v {v})\n(define {tag} {t})\n",
+        "(provide m{i}-f m{i}-v m{i}-w {tag} (contract/out m{i}-c (->/c int? int?)) (contract/out m{i}-d (->/c {doms} int?)))\n(instantiated! \"m{i}\")\n(define secret {sec})\n(define (helper x) (+ x secret))\n(define m{i}-v {v})\n(define {tag} {t})\n(define (m{i}-d {dparams}) (+ secret {dar}))\n",
         i = i,
+        doms = (0..d_arity(i)).map(|p| d_contract(i, p).0).collect::<Vec<_>>().join(" "),
+        dparams = (0..d_arity(i)).map(|p| format!("d{}", p)).collect::<Vec<_>>().join(" "),
+        dar = d_arity(i),
         sec = base + 1,
         v = base + 2,
         tag = tag_name(i),
@@ -95,6 +98,30 @@ fn module_text(i: usize, deps: &[usize], file_backed: &[bool], dir: &str) -> Str
         seen = seen_tag
     ));
     s
+}
+
+/// `m<i>-d`: a contracted function with 1-4 parameters whose domain contracts
+/// differ from position to position (rotated by i).
+const CONTRACTS: [(&str, &str); 4] = [("int?", "7"), ("string?", "\"s\""), ("symbol?", "'y"), ("boolean?", "#t")];
+
+fn d_arity(i: usize) -> usize {
+    i % 4 + 1
+}
+
+fn d_contract(i: usize, pos: usize) -> (&'static str, &'static str) {
+    CONTRACTS[(i + pos) % 4]
+}
+
+/// arguments for (m<i>-d ...): all legal, or with position `bad` holding a value
+/// that satisfies the NEXT position's contract (or the previous one's) instead of its own
+fn d_args(i: usize, bad: Option<usize>) -> String {
+    (0..d_arity(i))
+        .map(|p| match bad {
+            Some(b) if b == p => d_contract(i, p + 1).1.to_string(),
+            _ => d_contract(i, p).1.to_string(),
+        })
+        .collect::<Vec<_>>()
+        .join(" ")
 }
 
 /// value of (m<i>-w)
@@ -143,7 +170,7 @@ fn gen_workload(rng: &mut Rng, thorough: bool) -> Value {
             })
             .collect();
         let kind = *rng.pick(&["ok", "ok", "ok", "compile-fail", "runtime-fail", "private-probe", "contract-probe"]);
-        steps.push(json!({"reqs": reqs, "kind": kind, "own_secret": rng.chance(1, 3)}));
+        steps.push(json!({"reqs": reqs, "kind": kind, "own_secret": rng.chance(1, 3), "cv": rng.below(1000)}));
     }
     json!({"jit": rng.chance(1, 2), "n": n, "deps": deps, "file_backed": file_backed, "steps": steps})
 }
@@ -263,6 +290,7 @@ impl Scenario for C14 {
                         checks.push((format!("(m{}-f)", m), f_value(m, &deps).to_string()));
                         checks.push((format!("m{}-v", m), (base + 2).to_string()));
                         checks.push((format!("(m{}-c 1)", m), (base + 2).to_string()));
+                        checks.push((format!("(m{}-d {})", m, d_args(m, None)), (base + 1 + d_arity(m) as i64).to_string()));
                         checks.push((format!("(m{}-w)", m), w_value(m, &deps).to_string()));
                     }
                 }
@@ -295,7 +323,12 @@ impl Scenario for C14 {
                         .map(|r| r["m"].as_u64().unwrap() as usize)
                         .collect();
                     match plain.first() {
-                        Some(m) => src.push_str(&format!("(list (m{}-c \"not an int\"))\n", m)),
+                        Some(m) => match st["cv"].as_u64() {
+                            // one argument of the multi-argument contracted function holds a
+                            // value that only its neighbour's contract accepts
+                            Some(cv) if cv % 3 != 0 => src.push_str(&format!("(list (m{}-d {}))\n", m, d_args(*m, Some(cv as usize % d_arity(*m))))),
+                            _ => src.push_str(&format!("(list (m{}-c \"not an int\"))\n", m)),
+                        },
                         None => src.push_str(&format!("(list {})\n", exprs.join(" "))),
                     }
                 }
